@@ -172,7 +172,7 @@ func (c *Cluster) stallDetector() {
 }
 
 // ResetStall starts a new stall-measurement window.
-func (c *Cluster) ResetStall() { c.StallMaxNs.Store(0) }
+func (c *Cluster) ResetStall() { c.StallMaxNs.Store(0); c.Net.ResetRTT() }
 
 func (c *Cluster) Intn(n int) int {
 	c.rngMu.Lock()
